@@ -244,11 +244,33 @@ def judgeFind (d : DictRt) (app : Nat) (as : List AVP) (mode : String) (codes : 
     else some (followPath as codes)
   let render (r : Option (List AVP)) := match r with | some l => showAVPs l | none => "err"
   let implOut := impl.getD 0 ""
-  { model := render modelRes,
+  -- `edited=<tree> after=<answer>`: the application changed the tree below the top level and
+  -- asked again; the answer is the reference walk of the tree as it is then
+  let editBad : Bool := match (kv impl "edited").bind parseAVPs, kv impl "after" with
+    | some as', some after =>
+      let spec' : Option (List AVP) :=
+        if ¬ resolvable then none
+        else if mode = "first" then ((preorderL as').find? (fun a => a.code = c)).map (fun a => [a])
+        else if mode = "all" then (let r := (preorderL as').filter (fun a => a.code = c); if r.isEmpty then none else some r)
+        else some (followPath as' codes)
+      after ≠ render spec'
+    | none, none => false
+    | _, _ => true
+  let editModel : String := match (kv impl "edited").bind parseAVPs with
+    | some as' =>
+      let m' : Option (List AVP) :=
+        if ¬ resolvable then none
+        else if mode = "first" then (findFirstL c as').map (fun a => [a])
+        else if mode = "all" then (let r := findAllL c as'; if r.isEmpty then none else some r)
+        else some (withPath as' codes)
+      s!" edited={showAVPs as'} after={render m'}"
+    | none => ""
+  { model := render modelRes ++ editModel,
     fails := (if implOut ≠ render specRes then [s!"C20:{mode}-differs-from-reference-walk"] else []) ++
              (if impl.any (·.startsWith "again=") then ["C20:same-query-again-answers-differently"] else []) ++
-             (if impl.any (· = "tree=changed") then ["C20:search-changed-the-message"] else []),
-    tags := [s!"{mode} hits={(specRes.getD []).length} depth={depthL as}"],
+             (if impl.any (· = "tree=changed") then ["C20:search-changed-the-message"] else []) ++
+             (if editBad then ["C20:answer-after-an-edit-is-not-the-walk-of-the-edited-tree"] else []),
+    tags := [s!"{mode} hits={(specRes.getD []).length} depth={depthL as}{if (kv impl "edited").isSome then " edited" else ""}"],
     nontrivial := true }
 
 end DV.Drv
